@@ -216,7 +216,9 @@ func c09Run(tier string, seed int64, idx int) *core.Result {
 			cr.cr = StartClient(context.Background(), func() {}, nil, cc, "server", tag, []byte("q"), []Op{{Op: "recvAll"}}, nil, gates, nil, nil)
 		default:
 			hrec := &SideRec{}
-			b.Impl.SetStream(tag, func(t, k string, ss grpc.ServerStream) error { return runHandlerProg(ss, t, []Op{{Op: "echo"}}, hrec, gates) })
+			b.Impl.SetStream(tag, func(t, k string, ss grpc.ServerStream) error {
+				return runHandlerProg(ss, t, []Op{{Op: "echo"}}, hrec, gates)
+			})
 			var ops []Op
 			for i := 0; i < spec.N; i++ {
 				ops = append(ops, Op{Op: "send", N: 1, Size: 17}, Op{Op: "recv", N: 1})
@@ -414,11 +416,11 @@ func c09Run(tier string, seed int64, idx int) *core.Result {
 
 func init() {
 	core.Register(&core.Prop{
-		ID:    "C09",
-		Level: "fault_enumeration",
-		Rule:  "for each scenario (quick 8 fixed, thorough 60 incl. seeded random mixes of unary / client- / server- / bidi-stream calls) the client transport's read fails after EVERY prefix 0..L of the response envelope sequence, x write side {fails too, stays writable and discards} x read error kind {custom, io.EOF, wrapped io.EOF, context.Canceled, wrapped context.Canceled, DeadlineExceeded} (cycled over the cases); plus per scenario and write mode: a call parked by a rendezvous hook between the failure check and its registration while the failure and registry sweep happen (unary and stream), and calls started after the failure is recorded. Every case is a distinct (scenario, position, mode, timing) tuple and non-trivial (a fault is injected in each).",
-		Plan:  func(tier string, seed int64) int { return len(c09List(tier, seed)) },
-		Run:   c09Run,
+		ID:         "C09",
+		Level:      "fault_enumeration",
+		Rule:       "for each scenario (quick 8 fixed, thorough 60 incl. seeded random mixes of unary / client- / server- / bidi-stream calls) the client transport's read fails after EVERY prefix 0..L of the response envelope sequence, x write side {fails too, stays writable and discards} x read error kind {custom, io.EOF, wrapped io.EOF, context.Canceled, wrapped context.Canceled, DeadlineExceeded} (cycled over the cases); plus per scenario and write mode: a call parked by a rendezvous hook between the failure check and its registration while the failure and registry sweep happen (unary and stream), and calls started after the failure is recorded. Every case is a distinct (scenario, position, mode, timing) tuple and non-trivial (a fault is injected in each).",
+		Plan:       func(tier string, seed int64) int { return len(c09List(tier, seed)) },
+		Run:        c09Run,
 		Exhaustive: func(string) bool { return true },
 		RequiredStats: func(string) []string {
 			return []string{"register_window_rendezvous", "calls_started_after_failure", "calls_failed", "calls_succeeded_before_failure", "hook:mux.register.window"}
